@@ -442,7 +442,9 @@ class Gen:
         self.used_impl_items = set()
         self.ext_bodies = []
         self.lost = {}            # fn key -> [description of body annotations that could not be placed]
+        self.forced = []
         self.skip_body = set()    # fn keys whose body annotations are dropped (they no longer type-check)
+        self.force_external = set()   # fn keys whose real body the Verus front end rejects: body left outside the image
 
     # -- one function -------------------------------------------------------------------------
     def splice_fn(self, text, b, f, c):
@@ -664,6 +666,13 @@ class Gen:
             c = self.contracts.get(f.key)
             if c is not None:
                 c.used = True
+            if f.key in self.force_external and f.has_body:
+                if c is None:
+                    c = FnC(f.key)
+                    c.src = '<forced external>'
+                if not c.external_body:
+                    c.external_body = True
+                    self.forced.append(f.key)
             edits += self.splice_fn(text, b, f, c)
         # impl items
         for n, (mp, hdr, t) in enumerate(self.impl_items):
@@ -853,7 +862,7 @@ def read_contract_sources(vf_dir):
     return srcs
 
 
-def build_image(repo_src='/repo/src', vf_dir=HERE, canary=False, extra_sidecars=None, skip_body=()):
+def build_image(repo_src='/repo/src', vf_dir=HERE, canary=False, extra_sidecars=None, skip_body=(), force_external=()):
     RULES_APPLIED.clear()
     import spec_table
     srcs = read_contract_sources(vf_dir)
@@ -863,6 +872,7 @@ def build_image(repo_src='/repo/src', vf_dir=HERE, canary=False, extra_sidecars=
     contracts, items, impl_items = load_sidecars(srcs)
     g = Gen(repo_src, contracts, items, impl_items, canary=canary)
     g.skip_body = set(skip_body)
+    g.force_external = set(force_external)
     prelude = open(os.path.join(vf_dir, 'prelude.rs')).read()
     spec = open(os.path.join(vf_dir, 'speclib.rs')).read().replace('//@@GENERATED_SPEC_TABLE@@', spec_table.generated_spec())
     image, maps = g.generate(prelude, spec)
@@ -871,6 +881,7 @@ def build_image(repo_src='/repo/src', vf_dir=HERE, canary=False, extra_sidecars=
     maps['fn_index'] = g.fn_index
     maps['external_bodies'] = g.ext_bodies
     maps['lost_anchors'] = g.lost
+    maps['forced_external'] = g.forced
     maps['contracts'] = {k: {'src': c.src, 'external_body': c.external_body,
                              'n_requires': len(c.requires), 'n_ensures': len(c.ensures),
                              'safety': c.safety} for k, c in contracts.items()}
